@@ -1651,7 +1651,6 @@ func isSmallLit(t Term) bool {
 	return isDigits(s) && len(s) <= 4
 }
 
-
 // ---------------------------------------------------------------------------
 // Non-finite taint: a float quotient whose divisor may be zero is an arbitrary value in the model.
 // It may be returned, but wherever it is compared, converted to an integer, stored or passed to a
@@ -1712,7 +1711,6 @@ func (e *Enc) finiteUse(at ssa.Instruction, how string, ts ...Term) {
 		e.oblige("FP.finite", "", nil, Not(c), "a float that is "+how+" here must be finite: the divisor of the division it comes from must be non-zero", pos)
 	}
 }
-
 
 // writeOnceStore: the single store to a captured variable's cell when the cell is write-once (see writeOnceCell).
 func (e *Enc) writeOnceStore(a *ssa.Alloc) *ssa.Store {
